@@ -11,12 +11,23 @@
     family D32 after the repairs; each confirmed by the race detector in the harness), `C20_all_fields_disciplined_partial` proves the rest.
     `C20_disciplined_no_conflict` ties the per-field predicate to the pairwise one the harness queries.
 
+  * Part C (the regenerated table `Mcp.Gen.rcGlobals` of EVERY package-level variable of the library — root package
+    and internal/… —, `Mcp.Globals`): state shared by all clients and servers of the process.  `C20_all_globals_disciplined`
+    (kernel-decided over the complete table): every variable is immutable-and-never-reassigned, a sync primitive, an
+    object safe for concurrent use, only read after initialisation, atomic, or under one package-level mutex at every
+    access; an object whose methods may mutate it (`rand.New(…)`, a buffer, any type the extractor cannot see into)
+    counts as written by every use.  `C20_unsafe_global_rejected` shows the predicate rejects such a generator used
+    from `retry.Execute` (and a plain counter, a half-locked cache, a handed-out table) and accepts the locked variant;
+    `C20_globals_config_assumed` names the one variable whose verdict rests on the configuration-setter assumption.
+
   Partial: lock tracking is lexical and per function (no alias analysis, no inter-procedural propagation), memory
   reached through a pointer stored in a field is outside the table, and the Go memory model itself is trusted,
   not modelled instruction by instruction; `HB` here is a subset of Go's happens-before.
 -/
 import Mcp.Model.Lockset
+import Mcp.Model.Globals
 import Mcp.Gen.FieldLocks
+import Mcp.Gen.Globals
 namespace Mcp.Props.C20
 open Mcp.Lockset Mcp.Str
 
@@ -494,6 +505,77 @@ theorem C20_table_covers :
     (Mcp.Gen.rcSharedFields.any fun f => (live f).any (fun a => a.kind == .write) && (live f).all (fun a => a.sync != .plain)) = true ∧
     (Mcp.Gen.rcSharedFields.any fun f => (live f).any (fun a => a.kind == .write && a.sync == .plain) && disciplined f) = true ∧
     (Mcp.Gen.rcSharedFields.any fun f => (live f).all (fun a => a.kind != .write) && (f.accs.any fun a => a.init)) = true := by
+  decide +kernel
+
+/-! ## Part C — package-level variables (shared by every client and server of the process) -/
+
+open Mcp.Globals in
+/-- **Every package-level variable of the library is used with discipline** — decided by the kernel over the complete
+    regenerated table (root package and every internal/… package): its declaration is understood and, after package
+    initialisation, it is never written nor mutated through (a method call or hand-over of a container / an object
+    whose methods may mutate it counts as a write), or only touched atomically, or always under one package-level
+    mutex held in the right mode.  A `*rand.Rand`, buffer, map, slice, counter … shared by the goroutines of all
+    clients without such a discipline makes this fail. -/
+theorem C20_all_globals_disciplined : AllGlobalsDisciplined Mcp.Gen.rcGlobals := by
+  have h : (Mcp.Gen.rcGlobals.all gDisciplined) = true := by decide +kernel
+  exact fun g hg => List.all_eq_true.1 h g hg
+
+open Mcp.Globals in
+/-- A disciplined variable has no two post-initialisation accesses that conflict — under the reading in which every
+    mutating use is a write: a race report the harness maps to the variable is then not predicted. -/
+theorem C20_global_disciplined_no_conflict (g : Global) (h : gDisciplined g = true) (a b : Acc)
+    (ha : a ∈ live (asField g)) (hb : b ∈ live (asField g)) : conflict a b = false := by
+  have hd : disciplined (asField g) = true := by
+    unfold gDisciplined at h
+    simp only [Bool.and_eq_true] at h
+    exact h.2
+  exact C20_disciplined_no_conflict _ hd a b ha hb
+
+open Mcp.Globals in
+/-- **The predicate rejects what it must.**  A generator built with `rand.New` in a package-level variable and drawn
+    from in the back-off step of `retry.Execute` with no lock is undisciplined, and the table predicts the race of
+    `withJitter` with itself (two client calls backing off at the same time); behind a package-level mutex it is
+    accepted; the same accesses on an object that is safe for concurrent use are accepted; a plain counter, a cache
+    written under a lock but read without, a lookup table handed out to callers, and a declaration that was not
+    understood are rejected. -/
+theorem C20_unsafe_global_rejected :
+    gDisciplined jitterUnlocked = false ∧
+    predicted [asField jitterUnlocked] t!"retry" t!"jitterSource" t!"retry.withJitter" t!"retry.withJitter" = true ∧
+    gDisciplined jitterLocked = true ∧
+    predicted [asField jitterLocked] t!"retry" t!"jitterSource" t!"retry.withJitter" t!"retry.withJitter" = false ∧
+    gDisciplined safeUsed = true ∧
+    gDisciplined counterPlain = false ∧
+    gDisciplined cacheHalfLocked = false ∧
+    gDisciplined tableHandedOut = false ∧
+    gDisciplined { jitterLocked with vkind := .unknown } = false := by
+  decide
+
+open Mcp.Globals in
+/-- Non-vacuity of the table obligation: it is false of a table that contains the unlocked generator. -/
+example : ¬ AllGlobalsDisciplined (jitterUnlocked :: Mcp.Gen.rcGlobals) := by
+  intro h
+  have := h jitterUnlocked (List.mem_cons_self ..)
+  revert this
+  decide
+
+open Mcp.Globals in
+/-- **The configuration-setter assumption, pinned**: exactly one variable's verdict rests on it — `defaultLogger`,
+    assigned by `SetDefaultLogger` with no lock and read by every constructor (`GetDefaultLogger`).  Calling the
+    setter while another goroutine constructs a client or server IS a data race; the property's workloads do not
+    include it (assumption in props.d/C20.json).  A new setter-written variable changes this list. -/
+theorem C20_globals_config_assumed :
+    configAssumed Mcp.Gen.rcGlobals = [((t!"mcp", t!"defaultLogger"), [t!"SetDefaultLogger"])] := by
+  decide +kernel
+
+open Mcp.Globals in
+/-- The table is not degenerate: it reaches the root package and the internal packages (the retry package's table of
+    status codes among them), and has variables of several kinds that ARE used after initialisation. -/
+theorem C20_globals_table_covers :
+    (Mcp.Gen.rcGlobals.any fun g => g.pkg == t!"mcp") = true ∧
+    (Mcp.Gen.rcGlobals.any fun g => g.pkg == t!"retry" && g.vkind == .container && !(live (asField g)).isEmpty) = true ∧
+    (Mcp.Gen.rcGlobals.any fun g => g.pkg == t!"errors" && g.vkind == .immutable && !(live (asField g)).isEmpty) = true ∧
+    (Mcp.Gen.rcGlobals.any fun g => g.vkind == .safeObject && (g.accs.any fun a => a.kind == .use && !a.init)) = true ∧
+    (Mcp.Gen.rcGlobals.all fun g => g.accs.any fun a => a.init && a.kind == .write) = true := by
   decide +kernel
 
 end Mcp.Props.C20
